@@ -10,7 +10,7 @@ Definition live_of (k : Z) : liveliness_kind :=
   if k =? 0 then Automatic else if k =? 1 then ManualByParticipant else ManualByTopic.
 Definition b_of (k : Z) : bool := negb (k =? 0).
 Definition F (s n : Z) : duration_kind := Finite (mkduration s n).
-Definition I : duration_kind := Infinite.
+Definition Inf : duration_kind := Infinite.
 Definition Q (du sc co od : Z) (dl lb : duration_kind) (lk : Z) (ll : duration_kind)
              (re dor ow : Z) (rep : list Z) : eqos :=
   mkeqos (dur_of du)
